@@ -457,6 +457,84 @@ COMPLETION = [
 ]
 
 
+def label_cases():
+    """Loops carrying several labels, nested labelled loops, and break/continue to every label from every depth."""
+    out = []
+    heads = {   # (statement before the labels, loop head, loop tail)
+        "for": ("", "for (var %(i)s = 0; %(i)s < 3; %(i)s++) {", "}"),
+        "while": ("var %(i)s = 0;", "while (%(i)s < 3) { %(i)s++;", "}"),
+        "dowhile": ("var %(i)s = 0;", "do { %(i)s++;", "} while (%(i)s < 3);"),
+        "forin": ("", "for (var %(i)s in {p: 1, q: 2, r: 3}) {", "}"),
+        "forof": ("", "for (var %(i)s of [7, 8, 9]) {", "}"),
+    }
+    labelsets = [("A",), ("A", "B"), ("A", "B", "C")]
+    carriers = ["plain", "switch", "tryfinally", "block"]
+    for ok, (op_, oh, oc) in heads.items():
+        for ols in labelsets:
+            for ik, (ip_, ih, ic) in heads.items():
+                for ils in [(), ("X",), ("X", "Y")]:
+                    targets = [("break", l) for l in ols + ils] + [("continue", l) for l in ols + ils] + [("break", None), ("continue", None)]
+                    for kind, tgt in targets:
+                        for carrier in carriers:
+                            if (ok, ik) not in (("for", "for"), ("while", "forin"), ("forof", "dowhile"), ("dowhile", "forof"), ("forin", "while")) and carrier != "plain":
+                                continue
+                            jump = kind + (" " + tgt if tgt else "") + ";"
+                            inner_body = "__out(n++); if (n %% 3 == 1) { %s } __out(-n);" % jump
+                            if carrier == "switch":
+                                if kind == "break" and tgt is None:
+                                    continue
+                                inner_body = "__out(n++); switch (n %% 3) { case 1: %s default: __out(50) } __out(-n);" % jump
+                            elif carrier == "tryfinally":
+                                inner_body = "__out(n++); try { if (n %% 3 == 1) { %s } } finally { __out(60) } __out(-n);" % jump
+                            elif carrier == "block":
+                                inner_body = "__out(n++); Z: { if (n %% 3 == 1) { %s } __out(70) } __out(-n);" % jump
+                            ol = "".join(l + ": " for l in ols)
+                            il = "".join(l + ": " for l in ils)
+                            src = ("var n = 0; " + (op_ % {"i": "i"}) + " " + ol + (oh % {"i": "i"}) + " __out(100); if (n > 12) break; " +
+                                   (ip_ % {"i": "j"}) + " " + il + (ih % {"i": "j"}) + " " +
+                                   inner_body + " if (n > 12) break; " + ic % {"i": "j"} + " __out(200); " + oc % {"i": "i"} + " n")
+                            cid = "lab/%s[%s]>%s[%s]/%s %s/%s :: %s" % (ok, "".join(ols), ik, "".join(ils), kind, tgt or "-", carrier, src)
+                            out.append((cid, {"src": src, "tl": TL}))
+    return out
+
+
+def header_closure_cases():
+    """Closures created inside the header expressions of statements (if/while/for/switch/return/throw operands...)."""
+    out = []
+    wrappers = {
+        "if-test": "if ((function () { return %(v)s })() %(cmp)s) { r = 1 } else { r = 2 }",
+        "while-test": "var k = 0; while ((function () { k++; return %(v)s + k })() < 5) { r = (r || 0) + 1 }",
+        "for-init": "for (var g = function () { return %(v)s }, k = 0; k < 2; k++) { r = g() + k }",
+        "for-test": "for (var k = 0; (function () { return %(v)s + k })() < 4; k++) { r = k }",
+        "for-update": "for (var k = 0; k < 2; k = (function () { return k + 1 + %(v)s * 0 })()) { r = k }",
+        "switch-discriminant": "switch ((function () { return %(v)s })()) { case 1: r = 'one'; break; default: r = 'other' }",
+        "case-test": "switch (1) { case (function () { return %(v)s })(): r = 'hit'; break; default: r = 'miss' }",
+        "return-operand": "r = (function () { return (function () { return %(v)s })() })()",
+        "throw-operand": "try { throw (function () { return %(v)s })() } catch (e) { r = e }",
+        "forin-object": "for (var key in (function () { return {a: %(v)s} })()) { r = key }",
+        "forof-iterable": "for (var item of (function () { return [%(v)s, %(v)s] })()) { r = item }",
+        "ternary-test": "r = (function () { return %(v)s })() ? 'y' : 'n'",
+        "logical-rhs": "r = false || (function () { return %(v)s })()",
+        "arg-default-like": "r = [function () { return %(v)s }][0]()",
+        "member-key": "r = ({k1: 'a', k2: 'b'})['k' + (function () { return %(v)s })()]",
+        "dowhile-test": "var k = 0; do { k++ } while ((function () { return %(v)s + k })() < 4); r = k",
+        "arrow-if-test": "if ((() => %(v)s)() %(cmp)s) { r = 1 } else { r = 2 }",
+    }
+    scopes = {
+        "param": "function f(x) { var r; %s; return r } __out(f(1)); f(2)",
+        "local": "function f(y) { var x = y, r; %s; return r } __out(f(1)); f(2)",
+        "local-later-write": "function f(y) { var x = 0, r; x = y; %s; x = 9; return r } __out(f(1)); f(2)",
+        "grandparent": "function f(x) { return (function () { var r; %s; return r })() } __out(f(1)); f(2)",
+        "top-level": "var x = 1, r; %s; __out(r); x = 2; r",
+    }
+    for wname, w in wrappers.items():
+        for sname, sc in scopes.items():
+            body = w % {"v": "x", "cmp": "== 1"}
+            src = sc % body
+            out.append(("hdr/%s/%s :: %s" % (wname, sname, src), {"src": src, "tl": TL}))
+    return out
+
+
 def hoisting_cases():
     out = []
     for label, src in HOISTING:
@@ -515,6 +593,13 @@ def core_spaces():
         _space("c05_closures", closure_cases,
                "9 capture kinds x 4 accesses x 6 activation patterns x nesting 1..3 x 3 closure forms; non-trivial = "
                "something is logged", "9 x 4 x 6 x 3 x 3", nontrivial_log),
+        _space("c05_labels", label_cases, "loops of 5 kinds carrying 1-3 labels with an inner loop carrying 0-2 labels; break/continue to "
+               "every label (and unlabelled) from the inner body, through a switch, a try/finally or a labelled block", "labels",
+               lambda cid, p, exp: True),
+        _space("c05_header_closures", header_closure_cases, "closures created in statement-header expressions (if/while/do/for init-test-update, "
+               "switch discriminant and case test, return/throw operands, for-in/of subjects, ternary, logical, member key) capturing a "
+               "parameter, a local, a later-written local, a grandparent variable or a global", "17 positions x 5 scopes",
+               lambda cid, p, exp: True),
         _space("c05_hoisting", hoisting_cases, "function/var hoisting, duplicate declarations, function-boundary "
                "isolation of jump contexts (hand-enumerated list)", "%d programs" % len(HOISTING), nontrivial_any),
         _space("c05_completion", completion_cases,
